@@ -472,12 +472,13 @@ func main() {
 	defer os.RemoveAll(base)
 
 	ws := corpus()
-	nw := run.N(2, 60)
+	nw := run.N(1, 60)
 	for i := 0; i < nw; i++ {
 		ws = append(ws, genWorkload(rng.Fork(), run.Thorough() || i == 0))
 	}
 	id := 0
 	totalCrashes := 0
+	afterRoll, afterRoll2 := map[string]bool{}, map[string]bool{} // points crashed at after >=1 / >=2 rollovers of the running commit
 	for wi, w := range ws {
 		wdir := filepath.Join(base, fmt.Sprintf("w%d", wi))
 		os.MkdirAll(wdir, 0o755)
@@ -510,9 +511,24 @@ func main() {
 		// enumerate all (p, k)
 		seen := map[string]int{}
 		var runs []crashRun
+		rolled := 0 // rollovers so far inside the current commit
 		for pos, h := range rep.Hits {
 			seen[h]++
 			runs = append(runs, crashRun{h, seen[h], pos})
+			for _, cs := range rep.CommitStart {
+				if cs == pos {
+					rolled = 0
+				}
+			}
+			if h == "block:rollover" {
+				rolled++
+			}
+			if rolled >= 1 {
+				afterRoll[h] = true
+			}
+			if rolled >= 2 {
+				afterRoll2[h] = true
+			}
 		}
 		// plus the run that does not crash at all
 		runs = append(runs, crashRun{"", 0, len(rep.Hits)})
@@ -672,6 +688,21 @@ func main() {
 		}
 		os.RemoveAll(wdir)
 	}
+	// coverage requirement of the enumeration itself: every instrumented point is
+	// crashed at while the running commit has already rolled over (disk cursor in
+	// a later file than the durable one), most of them after two rollovers
+	var missing []string
+	for name := range markID {
+		if !afterRoll[name] {
+			missing = append(missing, name)
+		}
+	}
+	sort.Strings(missing)
+	if len(missing) > 0 {
+		st.Fail("harness:coverage", "crash enumeration did not reach these points after a rollover: "+strings.Join(missing, ","), nil)
+	}
+	st.Extra["points_crashed_after_rollover"] = len(afterRoll)
+	st.Extra["points_crashed_after_two_rollovers"] = len(afterRoll2)
 	st.Extra["workloads"] = len(ws)
 	st.Extra["crash_runs"] = totalCrashes
 	st.Traces = st.Evals
@@ -794,6 +825,21 @@ func corpus() []workload {
 				{Blocks: []blockSpec{{1, 0, 80}}, Ops: []metaOp{{Key: 0, Val: []byte{7}}, {Key: 4, Del: true}}, Flush: false},
 				{Blocks: []blockSpec{{2, 9, 60}}, Ops: []metaOp{{Key: 3, Val: []byte{5, 5, 5}}}, Flush: true},
 				{Blocks: []blockSpec{{2, 2, 10}}, Ops: nil, Flush: false}}},
+		// durable cursor (file 0, offset 462); a cached commit, then ONE flushing
+		// commit that rolls over twice (-> file 1 offset 72, -> file 2 offset 492):
+		// every instrumented point, incl. flush:before/after-ldb, is hit while the
+		// disk is at (file N+1 or N+2, small offset) and the metadata at (file N, large offset)
+		{Max: 512, Mode: "flags", Close: true, Post: post(512),
+			Pre: []commit{{Blocks: []blockSpec{{2, 3, 450}}, Ops: []metaOp{{Key: 4, Val: []byte{4}}}, Flush: true}},
+			Sess: []commit{
+				{Blocks: nil, Ops: []metaOp{{Key: 0, Val: []byte{1}}}, Flush: false},
+				{Blocks: []blockSpec{{0, 8, 60}, {1, 0, 480}, {2, 9, 5}}, Ops: []metaOp{{Key: 3, Val: []byte{5, 5}}}, Flush: true}}},
+		// the same without a clean prefix and without flush: three rollovers in a
+		// cached commit, then the process exits (nothing of it may survive)
+		{Max: 512, Mode: "flags", Close: false, Post: post(512),
+			Sess: []commit{
+				{Blocks: []blockSpec{{2, 1, 470}}, Ops: []metaOp{{Key: 0, Val: []byte{1}}}, Flush: true},
+				{Blocks: []blockSpec{{0, 8, 30}, {1, 0, 490}, {2, 9, 40}, {0, 4, 460}}, Ops: []metaOp{{Key: 1, Val: []byte{6}}}, Flush: false}}},
 	}
 }
 
